@@ -125,6 +125,11 @@ MUTATIONS = [
     ("tlexport/main.py", '        all_decrypted_sessions.extend(quic_session.build_output(metadata))', '        all_decrypted_sessions.extend(quic_session.build_output(False))', 'main.collect: metadata flag not passed on'),
     ("tlexport/main.py", '        if ts == -1:\n            keylog.extend(', '        if ts == 0:\n            keylog.extend(', 'main.run_dsb: secrets block recognised by ts == 0'),
     ("tlexport/main.py", '    if args.sslkeylog is not None:\n', '    if args.sslkeylog is None:\n', 'main.run_keylog_file: key-log file read when absent'),
+    ("tlexport/main.py", '            if len(dcid) > 0 and (dcid in session.client_cids or dcid in session.server_cids):\n                session.handle_packet(packet, dcid, quic_version)\n                return\n', '            if len(dcid) > 0 and (dcid in session.client_cids or dcid in session.server_cids):\n                session.handle_packet(packet, dcid, quic_version)\n', 'main.quic_loop: long-header CID match does not end the loop'),
+    ("tlexport/main.py", '                    session.handle_packet(packet, cid, quic_version)\n                    return\n', '                    session.handle_packet(packet, dcid, quic_version)\n                    return\n', 'main.quic_loop: short-header match hands on the empty DCID'),
+    ("tlexport/main.py", '        if session.matches_session_dgram(packet.ip_src, packet.ip_dst, packet.sport, packet.dport):\n            session.handle_packet(packet, dcid, quic_version)\n            return\n', '        if session.matches_session_dgram(packet.ip_src, packet.ip_dst, packet.sport, packet.dport):\n            session.handle_packet(packet, dcid, quic_version)\n            continue\n', 'main.quic_loop: 4-tuple match goes on to the next session'),
+    ("tlexport/main.py", '        quic_sessions.append(new_session)\n        new_session.handle_packet(packet, dcid, quic_version)', '        quic_sessions.append(new_session)', 'main.quic_loop: first packet of a new session not processed'),
+    ("tlexport/main.py", '                    candidates = session.server_cids\n                else:\n                    candidates = session.client_cids', '                    candidates = session.client_cids\n                else:\n                    candidates = session.server_cids', 'main.quic_loop: sender-side CIDs as candidates (fragment)'),
     # group QuicTls: quic_tls_parser.py
     ("tlexport/quic/quic_tls_parser.py", "            if p_type == 0x2ab2:", "            if p_type == 0x2ab3:", "get_quic_transport_parameters: grease_quic_bit under the wrong id"),
     ("tlexport/quic/quic_tls_parser.py", "            extension_body = extension_body[index + parameter_length:]", "            extension_body = extension_body[index + parameter_length + 1:]", "get_quic_transport_parameters: a byte skipped after each parameter"),
@@ -295,7 +300,7 @@ def group_of(what):
               "decrypt_tls12_chacha20", "Decryptor.decrypt"):
         return ["Decrypt"]
     if fn.startswith("main."):
-        return ["Main2"]
+        return ["Demux", "Main2"] if "(fragment)" in what else ["Main2"]
     if fn in ("decrypt_packet", "handle_frame", "QuicSession.handle_quic_packet", "handle_crypto_frame", "QuicSession.handle_packet"):
         return ["QuicSess2"]
     if fn in ("get_quic_transport_parameters", "get_extensions", "handle_client_hello", "handle_server_hello", "handle_encrypted_extensions", "handle_record"):
@@ -305,7 +310,8 @@ def group_of(what):
     if fn in ("extract_server_buf", "extract_client_buf") and "next_seq" in what:
         return ["Reasm", "Reasm2"]
     if fn == "handle_quic_packet":
-        return ["QuicDissect"] if "long header read" in what else ["Demux"]
+        # (the session loop is translated twice: its tests as fragments in Demux, the loop as a whole in Main2)
+        return ["QuicDissect"] if "long header read" in what else ["Demux", "Main2"]
     return table[fn]
 
 
